@@ -11,7 +11,7 @@ namespace {
 const en::PeerId kA = make_id(0xA1, 0x11);
 const en::PeerId kB = make_id(0xB2, 0x22);
 
-struct Sent { int sender; int seq; std::size_t size; int dir; bool accepted; };
+struct Sent { int sender; int seq; std::size_t size; int dir; bool accepted; std::int64_t took_ns = 0; };
 
 std::vector<std::uint8_t> tagged_payload(int dir, int sender, int seq, std::size_t size) {
     const std::uint64_t tag = (static_cast<std::uint64_t>(dir) << 40) | (static_cast<std::uint64_t>(sender) << 24) | static_cast<std::uint64_t>(seq);
@@ -46,7 +46,7 @@ Plan gen_c14(sk::Rng& r, Tier tier) {
         } else if (c < 80) { op.k = "oversend"; op.a = {static_cast<std::int64_t>(r.below(2))}; }
         else if (c < 88) { op.k = "raw_oversize"; op.a = {r.pick<std::int64_t>({(1 << 20) + 1, 1 << 24, 0x7fffffff, 0xffffffffLL}), r.pick<std::int64_t>({0, 1, 100})}; }
         // the receiving application stops reading for a while (its handler is busy): buffers fill up, senders block for seconds
-        else if (c < 93) { op.k = "stall"; op.a = {static_cast<std::int64_t>(r.below(2)), r.pick<std::int64_t>({800, 3000, 6000, 12000, 30000})}; }
+        else if (c < 93) { op.k = "stall"; op.a = {static_cast<std::int64_t>(r.below(2)), r.pick<std::int64_t>({800, 2000, 3500, 4500, 6000, 12000})}; }
         else if (faulty) { op.k = "reset"; op.a = {static_cast<std::int64_t>(r.below(2))}; }
         else { op.k = "pause"; op.a = {r.range(1, 500)}; }
         p.ops.push_back(op);
@@ -101,7 +101,8 @@ void exec_c14(const Plan& p, Ctx& ctx) {
             if (size >= (1u << 20) - 1) ctx.boundary("payload_at_size_limit");
             // shared state lives on the heap: a sender that is still blocked when the burst is abandoned
             // must not touch a dead stack frame
-            struct Burst { std::vector<std::vector<std::pair<int, bool>>> results; int finished = 0; };
+            struct Res { int q; bool ok; std::int64_t took; };
+            struct Burst { std::vector<std::vector<Res>> results; int finished = 0; };
             auto burst = std::make_shared<Burst>();
             burst->results.resize(static_cast<std::size_t>(senders));
             en::Node* node = from.node.get();
@@ -115,8 +116,9 @@ void exec_c14(const Plan& p, Ctx& ctx) {
                         for (int i = 0; i < count; ++i) {
                             const int q = seqp[dir][s]++;
                             const auto payload = tagged_payload(dir, s, q, size);
+                            const std::int64_t t0 = sk::now_ns();
                             const bool ok = node->send_secure(to, payload);
-                            burst->results[static_cast<std::size_t>(s)].push_back({q, ok});
+                            burst->results[static_cast<std::size_t>(s)].push_back({q, ok, sk::now_ns() - t0});
                         }
                         ++burst->finished;
                     });
@@ -130,11 +132,11 @@ void exec_c14(const Plan& p, Ctx& ctx) {
             if (!completed || burst->finished != senders) {
                 ctx.violate("C14.send_stuck", fmt("a sender fiber (dir %d, %zu-byte payloads) did not finish within %.0f simulated seconds (worst-case transfer bound)", dir, size, budget / 1e9));
                 for (int s = 0; s < senders; ++s)
-                    for (auto& [q, ok] : burst->results[static_cast<std::size_t>(s)]) sent.push_back({s, q, size, dir, ok});
+                    for (auto& r : burst->results[static_cast<std::size_t>(s)]) sent.push_back({s, r.q, size, dir, r.ok, r.took});
                 break;  // the run cannot continue meaningfully
             }
             for (int s = 0; s < senders; ++s)
-                for (auto& [q, ok] : burst->results[static_cast<std::size_t>(s)]) sent.push_back({s, q, size, dir, ok});
+                for (auto& r : burst->results[static_cast<std::size_t>(s)]) sent.push_back({s, r.q, size, dir, r.ok, r.took});
         } else if (op.k == "oversend") {
             const int dir = static_cast<int>(op.at(0));
             NodeProc& from = dir == 0 ? A : B;
@@ -202,6 +204,12 @@ void exec_c14(const Plan& p, Ctx& ctx) {
     }
 
     // ---- oracle over the recorded history
+    // A sender does not wait for ever for a peer that has stopped draining its socket: a send that was refused after it had been
+    // blocked for about the stall timeout (5 s) ends the session, like a reset does; what was in flight then may be lost and
+    // later sends are refused. A refusal that comes sooner on a session nobody disturbed is still a violation.
+    bool gave_up = false;
+    for (auto& s : sent) if (!s.accepted && s.took_ns >= 4900 * kMs) gave_up = true;
+    if (gave_up) ctx.boundary("sender_gave_up_on_a_peer_that_does_not_drain");
     for (int dir = 0; dir < 2; ++dir) {
         const auto& inbox = dir == 0 ? B.inbox : A.inbox;
         const en::PeerId from = dir == 0 ? kA : kB;
@@ -234,7 +242,7 @@ void exec_c14(const Plan& p, Ctx& ctx) {
             if (!matched)
                 ctx.violate("C14.corrupt_delivery", fmt("handler of %s received %zu bytes that match no payload sent to it (partial, mixed or altered frame)", dir == 0 ? "B" : "A", m.payload.size()));
         }
-        if (!reset_injected) {
+        if (!reset_injected && !gave_up) {
             for (auto& s : sent) {
                 if (s.dir != dir) continue;
                 if (!s.accepted) { ctx.violate("C14.send_refused", fmt("send of %zu bytes (dir %d) returned false on a healthy session", s.size, dir)); continue; }
